@@ -503,6 +503,18 @@ func (x *Exec) trCall(t *CCall, env *Env) Val {
 			return Val{T: tBool, S: le(app("s_reg", v.S), top)}
 		}
 		return Val{T: tBool, S: le(v.S, top)}
+	case "entryElems":
+		// entryElems(s): every slice region of s's element type that existed at function entry still holds
+		// the elements it held then (the loop writes only into regions allocated since)
+		v := arg(0)
+		slt, ok := under(v.T).(*types.Slice)
+		if !ok {
+			x.fail("entryElems: slice expected")
+		}
+		key, srt := x.elemKey(slt.Elem())
+		cur := x.heapGet(env.cur, key, srt)
+		old := x.heapGet(env.old, key, srt)
+		return Val{T: tBool, S: fmt.Sprintf("(forall ((r Int)) (! (=> (and (> r 0) (<= r allocBase0)) (= (select %s r) (select %s r))) :pattern ((select %s r))))", cur, old, cur)}
 	case "fnIs":
 		// fnIs(v, "pkg.(*T).m$bound"): the function value v is that function (bound method or closure)
 		lit, ok := t.Args[1].(*CStr)
